@@ -529,6 +529,9 @@ func (s *Srv) Migrate(em server.EquipmentMigration) string {
 // wrote (the test build derives rates from the wall clock) and tells the model.
 func (s *Srv) ImpactRound() {
 	before := s.E.S.VerifSnapshot()
+	// the job stores the rate it fetched for the CURRENT timeslot: the timeslot of every write is taken from
+	// the clock, not from where the value landed, so a misplaced write shows in the state comparison
+	now := glow.CurrentTimeslot()
 	s.E.S.VerifImpactRound()
 	after := s.E.S.VerifSnapshot()
 	var lines []string
@@ -537,7 +540,7 @@ func (s *Srv) ImpactRound() {
 		for i := range imp {
 			if imp[i] != old[i] {
 				s.T.Count("impact")
-				lines = append(lines, fmt.Sprintf("srv.impact id=%d ts=%d rate=%d", id, after.ReportsOffset+uint32(i), float64bits(imp[i])))
+				lines = append(lines, fmt.Sprintf("srv.impact id=%d ts=%d rate=%d", id, now, float64bits(imp[i])))
 			}
 		}
 	}
